@@ -164,6 +164,17 @@ def run_real(desc, ctx):
         kw["release_frequency"] = desc["freq"]
     if desc["warm"]:
         kw["warm_start_file"] = warm_file(ctx)
+    if grid is not None:
+        # the same release file was read a moment ago for another simulation on ANOTHER grid (other lon/lat
+        # conversion) in this process
+        ax, bx, ay, by = desc["ll"]
+        other = {"time": TimeKeeper(start=rf.iso(desc["start"]), stop=rf.iso(desc["stop"]), dt=desc["dt"], time_reversal=desc["rev"]),
+                 "state": State(instance_variables=ivars, particle_variables=pvars, default_values=dict(desc["defaults"])),
+                 "grid": StubGrid(2 * ax, bx + 3, ay + 1, by - 2)}
+        try:
+            ParticleReleaser(other, str(path), **kw)
+        except SystemExit:
+            pass
     try:
         rel = ParticleReleaser(mods, str(path), **kw)
     except SystemExit:
